@@ -114,6 +114,20 @@ func (f *Field[T]) newInternalElement(limbs []frontend.Variable, overflow uint) 
 	return &Element[T]{Limbs: limbs, overflow: overflow, internal: true}
 }
 
+// newComputedElement is newInternalElement for limbs that were just computed from other limbs. The builder
+// may have folded every limb into a constant (e.g. x - x leaves only the padding constants): such an
+// element is a constant and is represented canonically like every other constant.
+func (f *Field[T]) newComputedElement(limbs []frontend.Variable, overflow uint) *Element[T] {
+	e := f.newInternalElement(limbs, overflow)
+	if len(limbs) > 0 {
+		if v, isConst := f.constantValue(e); isConst {
+			v.Mod(v, f.fParams.Modulus())
+			return newConstElement[T](v, false)
+		}
+	}
+	return e
+}
+
 // GnarkInitHook describes how to initialise the element.
 func (e *Element[T]) GnarkInitHook() {
 	if e.Limbs == nil {
